@@ -41,7 +41,7 @@ fn find_prop(id: &str) -> PropDef {
 
 fn listed_for(prop: &str) -> Vec<KnownFinding> {
     match load_known_findings() {
-        Ok(v) => v.into_iter().filter(|f| f.property == prop).collect(),
+        Ok(v) => v.into_iter().filter(|f| f.property == prop || f.also_seen_by.iter().any(|p| p == prop)).collect(),
         Err(e) => { eprintln!("cannot load known findings: {e}"); std::process::exit(2) }
     }
 }
@@ -77,7 +77,7 @@ fn run_worker(args: &Args, idx: u64, of: u64) {
             n_replayed += 1;
         }
         stats.extra.insert("regression_replays".into(), n_replayed.into());
-        for f in kf.iter().filter(|f| f.status == "known" && !f.minimal.is_null()) {
+        for f in kf.iter().filter(|f| f.status == "known" && !f.minimal.is_null() && f.property == prop.id) {
             let Some(s) = prop.subs.iter().find(|s| s.name() == f.sub) else { stats.infra_errors.push(format!("finding {}: unknown sub {}", f.id, f.sub)); continue };
             match s.replay(&f.minimal) {
                 Some((Verdict::Known(id, d), _)) => { *stats.excluded_known.entry(id.clone()).or_insert(0) += 1; stats.known_detail.entry(id.clone()).or_insert(d); stats.extra.insert(format!("known_reproduced/{id}"), 1.into()); }
@@ -87,7 +87,7 @@ fn run_worker(args: &Args, idx: u64, of: u64) {
             }
         }
         // fixed findings: their minimal inputs must pass now
-        for f in kf.iter().filter(|f| f.status == "fixed" && !f.minimal.is_null()) {
+        for f in kf.iter().filter(|f| f.status == "fixed" && !f.minimal.is_null() && f.property == prop.id) {
             let Some(s) = prop.subs.iter().find(|s| s.name() == f.sub) else { continue };
             match s.replay(&f.minimal) {
                 Some((Verdict::Fail(m), _)) => stats.failures.push(Failure { prop: prop.id.into(), sub: f.sub.clone(), message: format!("fixed finding {} is back: {m}", f.id), case: f.minimal.clone() }),
@@ -237,7 +237,7 @@ fn main() {
     for f in kf.iter().filter(|f| f.status == "known") {
         let n = stats.excluded_known.get(&f.id).copied().unwrap_or(0);
         if n > 0 { println!("KNOWN-FINDING: property={} {} {} [seen {n}x this run]", prop.id, f.id, f.what); }
-        else { println!("note: listed finding {} was not reproduced in this run", f.id); }
+        else if f.property == prop.id { println!("note: listed finding {} was not reproduced in this run", f.id); }
     }
     let wall = t0.elapsed().as_secs_f64();
     let mut classes = JsonValue::new_object();
